@@ -1,4 +1,5 @@
 import Model
+import Proofs.Pool
 import Spec
 import Gen
 import Proofs.ConnData
@@ -132,6 +133,25 @@ theorem C15_late_write_fails (S : OwSys) (h : WInvOwn S) (k id : Nat) (c : OwCon
 theorem C15_write_needs_own_writer :
     (((({} : OwSys).run true [.openConn, .die 0, .openConn, .write 0 7]).1).conns.map (·.wire)) = [[], [(0, 7)]] := by
   decide
+
+/-- (pooled read buffers) every `ReadMessage` - one per connection at a time, any number of
+    connections - takes its header / small-body buffer from `readerBufferPool` and hands it back
+    when it returns, however it returns (the put is deferred: `C15_pool_gen`). For EVERY
+    interleaving: two reads never hold the same buffer, so what one connection's peer sends -
+    well-formed or not, complete or cut off - is never seen through another connection's buffer -/
+theorem C15_pool_exclusive (es : List PoolEv) (p : Pool) (h : Pool.run 1 {} es = some p) :
+    (∀ u v b, (u, b) ∈ p.held → (v, b) ∈ p.held → u = v) ∧ (∀ u b, (u, b) ∈ p.held → b ∉ p.free) :=
+  PoolInv_exclusive (PoolInv_run es {} p PoolInv_init h)
+
+/-- an extra put on a fault path breaks it: connection 0's read fails and its buffer goes back
+    twice; the reads of connections 1 and 2 then share it -/
+theorem C15_pool_double_put_counterexample :
+    ∃ p, Pool.run 2 {} [.acquire 0, .release 0, .acquire 1, .acquire 2] = some p ∧ (1, 0) ∈ p.held ∧ (2, 0) ∈ p.held :=
+  ⟨_, rfl, by decide, by decide⟩
+
+theorem C15_pool_gen :
+    Gen.poolUsers.all (fun u => Pool.disciplined u.2) = true ∧
+    (Gen.poolUsers.map (·.1)).contains "diam:ReadMessage" = true := by decide
 
 /-- structural facts regenerated from server.go -/
 theorem C15_gen : Gen.serveDeferRecover = true ∧ Gen.serveDeferClose = true ∧ Gen.serveDeferNotify = true ∧
